@@ -6,7 +6,7 @@ name, first, by, result = sys.argv[1:5]
 strengthened = sys.argv[5] if len(sys.argv) > 5 else None
 p = os.path.join(os.path.dirname(os.path.dirname(os.path.abspath(__file__))), "seeded", name, "meta.json")
 m = json.load(open(p))
-m["evaluation"] = {"caught_by": by, "result": result, "first_attempt": first == "yes", "round": 3,
+m["evaluation"] = {"caught_by": by, "result": result, "first_attempt": first == "yes", "round": int(os.environ.get("SEED_ROUND", "3")),
                    "confirmed": ["existing suite: 438 passed with the change", "demo.py: exit 0 on pristine /repo, exit 1 with the change",
                                  "check run against the scratch worktree containing exactly patch.diff (VERIF_REPO=<worktree>), /repo untouched",
                                  "same check on pristine /repo: PASS"]}
